@@ -100,6 +100,13 @@ def get_checkpoint_dict(agent: SelfEvolvableAlgorithm) -> Dict[str, Any]:
     """
     attribute_dict = EvolvableAlgorithm.inspect_attributes(agent)
 
+    # NOTE: Plain torch modules kept as attributes (e.g. the output layer `exp_layer` of
+    # the bandit algorithms) are references into the evolvable networks that the mutation
+    # hooks re-create, a pickled copy would be detached from the loaded networks
+    attribute_dict = {
+        k: v for k, v in attribute_dict.items() if not isinstance(v, torch.nn.Module)
+    }
+
     # Extract info on evolvable modules and optimizers in the algorithm
     network_info: Dict[str, Dict[str, Any]] = {"modules": {}, "optimizers": {}}
     for attr in agent.evolvable_attributes():
@@ -858,6 +865,10 @@ class EvolvableAlgorithm(ABC, metaclass=RegistryMeta):
         # Load other attributes
         checkpoint.pop("network_info")
         for attribute in checkpoint.keys():
+            # Skip references into the networks saved by older versions (see get_checkpoint_dict)
+            if isinstance(checkpoint[attribute], torch.nn.Module):
+                continue
+
             setattr(self, attribute, checkpoint[attribute])
 
         # Wrap models / compile if necessary
@@ -1013,6 +1024,10 @@ class EvolvableAlgorithm(ABC, metaclass=RegistryMeta):
 
         # Assign other attributes to the algorithm
         for attribute in EvolvableAlgorithm.inspect_attributes(self).keys():
+            # References into the networks are re-created by the mutation hooks
+            if isinstance(getattr(self, attribute), torch.nn.Module):
+                continue
+
             if attribute not in checkpoint:
                 warnings.warn(
                     f"Attribute {attribute} not found in checkpoint. Skipping."
